@@ -39,6 +39,8 @@ type Witness struct {
 	// Image is the file-system content at the start of the phase in which the violation
 	// occurred (after the crash and its torn tails), when all of it is concrete.
 	Image map[string][]byte `json:"image,omitempty"`
+	// WalClock: (unix second, nanosecond) of every wal.Create of the phase, in order
+	WalClock [][2]int64 `json:"wal_clock,omitempty"`
 }
 
 type Violation struct {
@@ -148,6 +150,8 @@ type Machine struct {
 	symArrs    map[*value]*symArr
 	phaseImage map[string][]byte
 	phaseRecords map[string]int64
+	walClock     [][2]int64
+	inWalCreate  bool
 	hashLogs   map[*value][]*term.Term
 	OnlyAsserts  []string // assertion-id prefixes that count (empty = all)
 	IgnorePanics bool     // panics/deadlocks are another property's subject
@@ -226,6 +230,7 @@ func (m *Machine) Run(fns []*ssa.Function, prefix []Decision) {
 		m.Phase = i
 		m.phaseImage = nil
 		m.obs = nil // observables belong to the phase that produced them
+		m.walClock = nil
 		m.phaseRecords = map[string]int64{}
 		for k, v := range m.records {
 			m.phaseRecords[k] = v
@@ -316,6 +321,7 @@ func (m *Machine) witness(withObs bool) Witness {
 	}
 	w.Trace = append([]string(nil), m.trace...)
 	w.Image = m.phaseImage
+	w.WalClock = append([][2]int64(nil), m.walClock...)
 	if m.fs != nil {
 		w.FSLog = append([]string(nil), m.fs.OpLog...)
 	}
